@@ -1,3 +1,27 @@
+/-
+  C12 — property theorems (model and specification: ShelxModel/C12.lean).
+
+  All theorems are over ℝ (exact arithmetic) and quantified over ALL cells that satisfy `ValidCell` (positive lengths,
+  cos/sin pairs of angles strictly between 0° and 180°, positive volume radicand — `validCell_of_angles` shows that this
+  is what real cosines and sines give), ALL coordinates, ALL symmetric U tensors; no bound on any magnitude.
+  `math.sqrt` is a parameter with the hypothesis `IsSqrt` (met by `Real.sqrt`).
+
+    ortho_upper, ortho_unique, ortho_is_cholesky   M is THE conventional setting (a along x, b in xy, right-handed)
+    ortho_gram, ortho_metric                        MᵀM = G;  ‖M x‖² = xᵀ G x
+    ortho_det, volume_metric                        det M = V = CELL.volume,  V² = det G
+    ortho_inverse                                   M·inversed M = 1 = inversed M·M (cofactor formula as coded)
+    frac_to_cart_agrees, cart_to_frac_agrees, cart_frac_inverse     the misc.py routines (cos α* route) agree with M / M⁻¹
+    distance_agrees                                 atomic_distance = |M p1 − M p2| = sqrt(dᵀ G d)
+    recip_spec                                      a*, b*, c* are the roots of the diagonal of G⁻¹
+    ueq_is_third_trace                              Atom.ueq (repaired chain) = ⅓ Σ U_ij a*_i a*_j (a_i·a_j)
+    ueq_old_value, ueq_old_fails_on, ucart_old_not_symmetric, ueq_old_right_if_orthogonal   the chain before fixes/C12_1
+    iso_branch_only_iso, iso_branch_old_fails_on    the isotropic branch of set_ueq (fixes/C12_2)
+    sylvester, posdef_congr, ucart_posdef_iff, is_npd_iff, npd_iff
+                                                    Atom.is_npd (repaired, fixes/C12_3) ⇔ U_cart not positive definite
+                                                    ⇔ Sylvester's test fails on the six file values (the harness oracle, Rat)
+  Not proved (stated, not hidden): rounding of IEEE doubles (every case of a run is compared at 1e-9), and the
+  convergence of the QR iteration `misc.eigenvals`, which `is_npd` no longer uses after fixes/C12_3.
+-/
 import ShelxModel.C12
 import Mathlib.Tactic.Ring
 import Mathlib.Tactic.Linarith
@@ -7,10 +31,11 @@ import Mathlib.Tactic.NormNum
 import Mathlib.Tactic.Positivity
 import Mathlib.Data.Real.Basic
 import Mathlib.Analysis.Real.Sqrt
+import Mathlib.Analysis.SpecialFunctions.Trigonometric.Basic
 
 namespace Shelx.C12
 
-/-- all the theorems use of `math.sqrt`: on non-negative arguments it returns the non-negative root -/
+/-- all that the theorems use of `math.sqrt`: on non-negative arguments it returns the non-negative root -/
 def IsSqrt (sqrt : ℝ → ℝ) : Prop := ∀ t, 0 ≤ t → sqrt t * sqrt t = t ∧ 0 ≤ sqrt t
 
 example : IsSqrt Real.sqrt := fun t ht => ⟨Real.mul_self_sqrt ht, Real.sqrt_nonneg t⟩
@@ -577,5 +602,59 @@ theorem iso_branch_old_fails_on :
   have := hst ⟨5/100, 5/100, 2/100, -1/100, -1/100, 0⟩ (by decide +kernel)
   revert this
   decide +kernel
+
+/-- Sylvester's criterion for a symmetric matrix, with the three minors exactly as the repaired `Atom.is_npd`
+    computes them from `u_cart.values` -/
+theorem sylvester_sym (m : M3 ℝ) (hsym : transpose m = m) :
+    PosDef m ↔ 0 < (npdMinors m).x ∧ 0 < (npdMinors m).y ∧ 0 < (npdMinors m).z := by
+  obtain ⟨⟨m00, m01, m02⟩, ⟨m10, m11, m12⟩, ⟨m20, m21, m22⟩⟩ := m
+  simp only [transpose, col0, col1, col2, M3.mk.injEq, V3.mk.injEq] at hsym
+  obtain ⟨⟨-, e1, e2⟩, ⟨-, -, e3⟩, -⟩ := hsym
+  subst e1 e2 e3
+  have hs := sylvester ⟨m00, m11, m22, m21, m20, m10⟩
+  simp only [ucif, minors] at hs
+  rw [hs]
+  have e3 : m00 * (m11 * m22 - m21 * m21) - m10 * (m10 * m22 - m21 * m20) + m20 * (m10 * m21 - m11 * m20)
+      = det ⟨⟨m00, m10, m20⟩, ⟨m10, m11, m21⟩, ⟨m20, m21, m22⟩⟩ := by
+    rfl
+  simp only [npdMinors]
+  rw [e3]
+
+/-- **is_npd_iff** (repaired `Atom.is_npd`, exact arithmetic): for every valid cell and every symmetric tensor given by
+    its six values, the atom is reported non-positive-definite exactly when its Cartesian U tensor is not positive
+    definite — and that is exactly when Sylvester's test fails on the six file values themselves -/
+theorem is_npd_iff {sqrt : ℝ → ℝ} (hs : IsSqrt sqrt) (c : Cell ℝ) (h : ValidCell c) (u : U6 ℝ) :
+    let mn := npdMinors (ucart (orthoM sqrt c) (nMat sqrt c) (ucif u))
+    ((¬ (0 < mn.x ∧ 0 < mn.y ∧ 0 < mn.z)) ↔ ¬ PosDef (ucart (orthoM sqrt c) (nMat sqrt c) (ucif u))) ∧
+    ((¬ (0 < mn.x ∧ 0 < mn.y ∧ 0 < mn.z)) ↔ ¬ PosDef (ucif u)) ∧
+    ((¬ (0 < mn.x ∧ 0 < mn.y ∧ 0 < mn.z)) ↔ ¬ (0 < (minors u).x ∧ 0 < (minors u).y ∧ 0 < (minors u).z)) := by
+  have hsym := ucart_symm (orthoM sqrt c) (recip sqrt c) u
+  have e1 := sylvester_sym _ hsym
+  have e2 := ucart_posdef_iff hs c h u
+  have e3 := sylvester u
+  simp only [nMat] at *
+  refine ⟨not_congr e1.symm, ?_, ?_⟩
+  · rw [← e1, e2, ← e3]
+  · rw [← e1, e2]
+
+/-- the cell the code builds from the six CELL numbers (angles in radians here) -/
+noncomputable def cellOfAngles (a b c al be ga : ℝ) : Cell ℝ :=
+  ⟨a, b, c, Real.cos al, Real.cos be, Real.cos ga, Real.sin al, Real.sin be, Real.sin ga⟩
+
+/-- the hypotheses `ValidCell` are what real cosines and sines give: positive lengths, angles strictly between 0 and π,
+    and a positive volume radicand (the only condition that restricts the three angles jointly) -/
+theorem validCell_of_angles (a b c al be ga : ℝ) (ha : 0 < a) (hb : 0 < b) (hc : 0 < c)
+    (hal : 0 < al ∧ al < Real.pi) (hbe : 0 < be ∧ be < Real.pi) (hga : 0 < ga ∧ ga < Real.pi)
+    (hD : 0 < volRadicand (cellOfAngles a b c al be ga)) : ValidCell (cellOfAngles a b c al be ga) where
+  ha := ha
+  hb := hb
+  hc := hc
+  hsa := Real.sin_pos_of_pos_of_lt_pi hal.1 hal.2
+  hsb := Real.sin_pos_of_pos_of_lt_pi hbe.1 hbe.2
+  hsg := Real.sin_pos_of_pos_of_lt_pi hga.1 hga.2
+  ea := by have := Real.sin_sq_add_cos_sq al; simp only [cellOfAngles]; nlinarith
+  eb := by have := Real.sin_sq_add_cos_sq be; simp only [cellOfAngles]; nlinarith
+  eg := by have := Real.sin_sq_add_cos_sq ga; simp only [cellOfAngles]; nlinarith
+  hD := hD
 
 end Shelx.C12
